@@ -486,7 +486,7 @@ class Spline(BaseGridder):
         check_is_fitted(self, ["force_"])
         shape = np.broadcast(*coordinates[:2]).shape
         force_east, force_north = n_1d_arrays(self.force_coords_, n=2)
-        east, north = n_1d_arrays(coordinates, n=2)
+        east, north = n_1d_arrays(np.broadcast_arrays(*coordinates[:2]), n=2)
         # Integer coordinates still produce floating point predictions
         data = np.empty(east.size, dtype=np.promote_types(east.dtype, "float32"))
         if parse_engine(self.engine) == "numba":
